@@ -138,6 +138,7 @@ pub fn check_main(a: CheckArgs) -> i32 {
             .arg("--out").arg(&tmp_dir)
             .arg("--audit-every").arg(a.audit_every.to_string())
             .arg("--strata").arg(a.strata.join(","))
+            .arg("--run-timeout").arg(a.run_timeout_s.to_string())
             .stdout(Stdio::piped())
             .stderr(Stdio::piped());
         let mut child = cmd.spawn().expect("spawn child");
@@ -222,10 +223,10 @@ pub fn check_main(a: CheckArgs) -> i32 {
             }
             Err(mpsc::RecvTimeoutError::Timeout) => {
                 for i in 0..n {
-                    if !eof[i] && done[i].is_none() && last_progress[i].2.elapsed() > Duration::from_secs(a.run_timeout_s) {
+                    if !eof[i] && done[i].is_none() && last_progress[i].2.elapsed() > Duration::from_secs((a.run_timeout_s * 10).max(600)) {
                         let (s, r, _) = last_progress[i].clone();
                         let _ = procs[i].kill();
-                        dead.push((i, s, r, format!("no progress for {} s inside one run (endless loop without a yield point in it)", a.run_timeout_s)));
+                        dead.push((i, s, r, format!("no progress for {} s", (a.run_timeout_s * 10).max(600))));
                         last_progress[i].2 = Instant::now();
                         done[i] = Some(json!({"killed": true}));
                     }
